@@ -94,6 +94,10 @@ func shardOf(i, n int) int {
 // RunShard executes this shard's share of every phase.
 func RunShard(c *Ctx, progress *os.File) {
 	p := c.Prop
+	if pe := os.Getenv("VERIF_PROC_ENV"); pe != "" {
+		c.Rec.Count("shards_started_with_other_environment_variables", 1)
+		c.Rec.Count("detail:shard_environment:"+pe, 1)
+	}
 	for pi := range p.Phases {
 		ph := &p.Phases[pi]
 		n := ph.N(c.Thorough)
